@@ -1,6 +1,6 @@
 """C19 - control and extended-operation values round-trip through their codecs."""
 from facts import walk, callee_of, call_args, loc
-import hirq, anchors, absx
+import sem, hirq, anchors, absx
 from shapes import *
 
 EXPLANATION = ("Encoders: every `From<X> for RawControl` / `From<X> for Exop` is abstractly evaluated (all paths) and the OID constant, "
@@ -9,7 +9,7 @@ EXPLANATION = ("Encoders: every `From<X> for RawControl` / `From<X> for Exop` is
                "5805, 3296, 3062, 4532, 4511, draft relax); CriticalControl sets criticality on the wrapped control's own encoding. "
                "Decoders: PagedResults, SyncState, SyncDone, parse_syncinfo, ReadEntryResp, PasswordModifyResp, WhoAmIResp, StartTxnResp - "
                "which child ordinal / tag feeds which field, required class/tag checks, the EntryState and SyncInfo choice tables and the "
-               "RFC 4533 defaults (refreshDone TRUE, refreshDeletes FALSE). Integer fields of response values (PagedResults size, the SyncState ENUMERATED): the decoder is interpreted with the component's content octets fixed to literal strings of every length 0..12 (distinct, high-bit, all-ones, zero-padded) and the field must be the big-endian value modulo the cast to the field's type - whichever function reads the octets (parse_uint, a local helper, a loop in place). Y.optional-absent: for every OPTIONAL / DEFAULT component of a response value's RFC shape the decoder has a returning path on which the cursor read at that position was not taken to have yielded an element (a read whose None flows into expect / unwrap leaves no such path). Envelope (Z13/Z14 encoder, Z.* decoder; the same rule functions as C02 S13/S14 and C03 T3): a control list is encoded as [0]{SEQ{OCTET type, BOOLEAN TRUE only-if critical, OCTET value only-if present}*} and decoded per control in *any* position of the list (loop-carried state included) as child 0 -> type, BOOLEAN -> criticality = content != 0, absent criticality -> false, absent value -> None. "
+               "RFC 4533 defaults (refreshDone TRUE, refreshDeletes FALSE). Integer fields of response values (PagedResults size, the SyncState ENUMERATED): the decoder is interpreted with the component's content octets fixed to literal strings of every length 0..12 (distinct, high-bit, all-ones, zero-padded) and the field must be the big-endian value modulo the cast to the field's type - whichever function reads the octets (parse_uint, a local helper, a loop in place). Y.opaque-octets-total: a component its RFC defines as opaque octets (transaction identifier, generated password, cookies, UUIDs) is decoded by a total function - a decoder that applies a UTF-8 test has a returning path for the test failing. Y.optional-absent: for every OPTIONAL / DEFAULT component of a response value's RFC shape the decoder has a returning path on which the cursor read at that position was not taken to have yielded an element (a read whose None flows into expect / unwrap leaves no such path). Envelope (Z13/Z14 encoder, Z.* decoder; the same rule functions as C02 S13/S14 and C03 T3): a control list is encoded as [0]{SEQ{OCTET type, BOOLEAN TRUE only-if critical, OCTET value only-if present}*} and decoded per control in *any* position of the list (loop-carried state included) as child 0 -> type, BOOLEAN -> criticality = content != 0, absent criticality -> false, absent value -> None. "
                "Not decided: byte-level equality of arbitrary cookies; lber's serialisation (C07).")
 TRUSTED = ['lber serialisation of a shape (C07)', 'RFC tables transcribed in this module']
 UNDECIDED = ['byte-level equality of arbitrary field contents', 'EndTxnResp (not in the property\'s list of response values)']
@@ -315,6 +315,7 @@ def run(ctx):
     check_syncinfo(ctx, f)
     # OPTIONAL components absent
     check_optional_absent(ctx, f)
+    check_opaque_octets(ctx, f)
     # the control envelope both ways (shared rule functions)
     from props import C02, C03
     C02.check_envelope(ctx, f, 'Z')
@@ -541,6 +542,43 @@ RESPONSE_REFS = [
     ('StartTxnResp', '<ldap3::exop_impl::txn::StartTxnResp' + EPP, 0, None, (),
      'RFC 5805 2.1: the response value is the transaction identifier itself (no components)'),
 ]
+
+# Components that their RFC defines as opaque octets (no character set): a decoder that converts them with a UTF-8 test has to
+# have a returning path for the test failing - a well-formed value need not be UTF-8.  (authzId of WhoAmI is a UTF-8 string by
+# RFC 4513 and is not listed; cookies and UUIDs are kept as bytes by their decoders and pass trivially.)
+OPAQUE_COMPONENTS = [
+    ('StartTxnResp', '<ldap3::exop_impl::txn::StartTxnResp' + EPP, 'txn_id', 'RFC 5805 2.1 / 2.2: the transaction identifier is an OCTET STRING chosen by the server, opaque to the client'),
+    ('PasswordModifyResp', '<ldap3::exop_impl::passmod::PasswordModifyResp' + EPP, 'gen_pass', 'RFC 3062 2: genPasswd [0] OCTET STRING - a password is a sequence of octets, not necessarily text'),
+    ('PagedResults', '<ldap3::controls_impl::paged_results::PagedResults' + CPP, 'cookie', 'RFC 2696: cookie OCTET STRING, opaque'),
+    ('SyncState', '<ldap3::controls_impl::content_sync::SyncState' + CPP, 'cookie', 'RFC 4533: syncCookie ::= OCTET STRING, opaque'),
+    ('SyncState', '<ldap3::controls_impl::content_sync::SyncState' + CPP, 'entry_uuid', 'RFC 4533: syncUUID ::= OCTET STRING (SIZE(16))'),
+    ('SyncDone', '<ldap3::controls_impl::content_sync::SyncDone' + CPP, 'cookie', 'RFC 4533: syncCookie ::= OCTET STRING, opaque'),
+]
+
+def check_opaque_octets(ctx, f):
+    n = 0
+    for name, path, field, ref in OPAQUE_COMPONENTS:
+        B = hirq.Body(f, f.body(path))
+        ctx.analysed['bodies'].add(path)
+        outs = [o for o in absx.Interp(f, B, unroll=1, inline=inline_policy, combinators=True).run() if o.kind in ('val', 'ret') and o.val[0] == 'struct']
+        is_utf8_test = lambda a: a[0] == 'is' and a[2] == 'Ok' and a[1][0] == 'call' and a[1][1].rsplit('::', 1)[-1] in ('from_utf8', 'from_utf8_mut')
+        needed, handled = set(), set()
+        for o in outs:
+            ft = dict(o.val[2]).get(field)
+            for a, t in o.st.pc:
+                if is_utf8_test(a):
+                    sa = sem.strip_site(a)
+                    if t and ft is not None and sem.has(sem.strip_site(ft), lambda x: x == sa[1]):
+                        needed.add(sa)
+                    if not t:
+                        handled.add(sa)
+        n += 1
+        bad = needed - handled
+        ctx.add('Y.opaque-octets-total', '%s|%s' % (name, field), loc(B.root), bool(outs) and not bad,
+                'the %s component is opaque octets (%s) but every decoding path that yields %s.%s assumes that a UTF-8 test of those octets succeeds (the failing test flows into expect / unwrap): a well-formed value whose octets are not UTF-8 makes the decoder panic'
+                % (field, ref, name, field))
+    ctx.floor('Y', 'opaque components evaluated', n, 6)
+
 
 def cursor_reads_taken(pc, depth):
     """positions of the reads of the component cursor `depth` sequence levels below the decoder's input that the path took to
